@@ -37,6 +37,22 @@ BufferUntouched, PeerSkyUnchanged, PeerOK), and after every call BOTH real objec
 CDELT1 negated, matrix rows exchanged; base - the reference picture for "moves no pixel" - is reset to the edited object,
 EditOK: the parity afterwards is that of the edited matrix): get_parity_sign must follow the object's current contents
 (key ...get_parity_sign:convention) and every later flip / ensure is judged against the edited picture.
+(d) ONE astropy WCS object held by several owners (spec/ParityHolders.tla, which INSTANCEs Parity for the operations and adds
+WHERE the result is stored): 2 or 3 holders (array-backed / PIL-backed Image, ImageDescription; three colour planes, an image and
+its description, ...) plus the caller, who keeps its own object w.  The spec gives every slot a WCS cell (= astropy's Wcsprm);
+TLC enumerates which slots start on the same cell, and every history of 3 (2 for three holders; thorough 4 / 3) calls over
+flip(i) / ensure(i) / an in-place edit of the WCS object reached through a slot.  A flip stores a NEW cell for the flipped holder
+and writes no existing one (Bystanders, Detached, NamedOK, HoldersSkyUnchanged, HoldersSignTracksRows; EditScope: an edit is seen by
+exactly the slots then on that cell).  Replay: slots on one cell get w itself or w.copy() (shallow: same Wcsprm), slots with a
+cell of their own get w.deepcopy() / w.sub() / w.celestial / a fresh WCS (the harness checks `a.wcs is b.wcs` against the spec's
+partition); after EVERY call EVERY holder is compared with its specified state: sign, rows in both views, sky positions of its
+pixels against its own reference picture, linear stage.  Keys: the called holder ...:sign / rows / sky as before; a holder that
+was NOT called but changed ...:bystander; the caller's own object written while no holder shows it is drift (...:caller-wcs), as a
+written pixel buffer is.
+Not enumerated: WCS objects carrying a FITS alternate-axis key (WCS(header, key="A")).  get_parity_sign / flip_parity /
+ensure_negative_parity raise KeyError("Keyword 'CDELT1' not found.") on them (to_header() emits CDELT1A ...): a loud refusal before
+anything is written - no sign is reported, no row reversed, no pixel moved - so none of the property's sentences can be observed to
+fail on it; toasty reads every WCS through unsuffixed header keywords (builder, WTML) and never constructs an alternate description.
 """
 import itertools
 import math
@@ -831,7 +847,10 @@ def run(ctx):
                 "object ensure, ensure; data read back through asarray() and aspil(). In addition TLC generates every call history of "
                 "length 4 (thorough 5) over {flip, ensure} (x touch for PIL-backed) for a thin header set; each is replayed on one real "
                 "object and compared after every call; further histories of length 3 with WCS objects that record a grid size (equal / larger / "
-                "smaller than the image) and with two Images sharing one buffer (alias, overlapping slices; both judged after every call). "
+                "smaller than the image) and with two Images sharing one buffer (alias, overlapping slices; both judged after every call); "
+                "and histories of length 3 / 2 over 2 / 3 holders + the caller around ONE WCS object (which slots share WCS parameters enumerated by "
+                "TLC; w, w.copy(), w.deepcopy(), w.sub(), w.celestial in the replay; flip / ensure of one holder, in-place edits; every holder judged "
+                "after every call). "
                 "distinct = distinct (case, history); every case is non-trivial "
                 "(non-singular WCS, >= 1 pixel)")
     if ctx.quick:
@@ -879,18 +898,23 @@ def run(ctx):
                          count_cases(kinds, ws, hs, hd, refx[:1], ry, len(recy), len(peers)) * nact ** H2, "call histories"))
     # ---- ONE WCS object held by several owners (spec/ParityHolders.tla): holders x which of them (and the caller) share WCS
     # parameters x every call history over {flip(i), ensure(i)} (x in-place edits through a slot's WCS object)
-    two = [("image", "desc"), ("pil", "image")] if ctx.quick else [("image", "desc"), ("pil", "image"), ("desc", "desc"), ("image", "image")]
-    share2 = [(1, 1, 1), (1, 1, 2), (1, 2, 2)] + ([] if ctx.quick else [(1, 2, 1), (1, 2, 3)])   # (caller, holder 1, holder 2) -> WCS cell
+    share2 = [(1, 1, 1), (1, 1, 2), (1, 2, 2)]                                 # (caller, holder 1, holder 2) -> WCS cell
+    share3 = [(1, 1, 1, 1), (1, 1, 1, 2), (1, 2, 2, 2)]
     three = [("image", "image", "image"), ("image", "desc", "pil")]           # three colour planes; an image, its description, a bitmap
-    share3 = [(1, 1, 1, 1), (1, 1, 1, 2), (1, 2, 2, 2)] + ([] if ctx.quick else [(1, 1, 2, 2), (1, 2, 1, 2), (1, 2, 3, 3), (1, 2, 3, 4)])
-    hd_hold = [hh[2], hh[5]] if ctx.quick else hh[::2] + hh[5:6]               # PC+CDELT positive parity; rotated CD negative parity
-    holder_runs = [([(k, sh) for k in two for sh in share2], hd_hold, 3 if ctx.quick else 4, ["cdsign"] if ctx.quick else sorted(EDITS), [0] if ctx.quick else [0, 1]),
-                   ([(k, sh) for k in three for sh in share3], hd_hold, 2 if ctx.quick else 3, [] if ctx.quick else ["rowswap"], [2])]
+    hd_hold = [hh[2], hh[5]]                                                   # PC+CDELT positive parity; rotated CD negative parity
+    if ctx.quick:
+        # (configs, headers, history length, edits, slots through whose WCS object the client edits)
+        holder_runs = [([(k, sh) for k in [("image", "desc"), ("pil", "image")] for sh in share2], hd_hold, 3, ["cdsign"], [0]),
+                       ([(k, sh) for k in three for sh in share3], hd_hold, 2, [], [])]
+    else:
+        share2 += [(1, 2, 1), (1, 2, 3)]
+        share3 += [(1, 1, 2, 2), (1, 2, 3, 3)]
+        holder_runs = [([(k, sh) for k in [("image", "desc"), ("pil", "image")] for sh in share2], hd_hold, 4, ["cdsign"], [0]),
+                       ([(k, sh) for k in [("desc", "desc"), ("image", "image")] for sh in share2[:3]], hd_hold, 3, sorted(EDITS), [1]),
+                       ([(k, sh) for k in three for sh in share3], hd_hold, 3, ["rowswap"], [2])]
     for configs, hd, mh, edits, via in holder_runs:
         a = (configs, widths[-1:], heights[-1:], hd, refx[:1], refy[:1], mh, edits, via)
         jobs_tlc.append(("S", mc_holders(*a), mh, count_holder_histories(*a), "shared-WCS call histories"))
-    if os.environ.get("C16_ONLY"):
-        jobs_tlc = [j for j in jobs_tlc if j[0] in os.environ["C16_ONLY"]]
     from concurrent.futures import ThreadPoolExecutor
 
     def run_tlc(job):
@@ -931,7 +955,7 @@ def run(ctx):
         if rec["orig"]["kind"] == "pil" and rec["orig"]["h"] > 1:
             combos.add((BACKINGS[i % len(BACKINGS)], TOUCHES[(i // len(BACKINGS)) % len(TOUCHES)], rec["start"]["sign"]))
     ctx.note("pil_backing_x_pretouch_x_startsign_combinations_with_h_gt_1", len(combos))
-    if len(combos) != len(BACKINGS) * len(TOUCHES) * 2 and not os.environ.get("C16_ONLY"):
+    if len(combos) != len(BACKINGS) * len(TOUCHES) * 2:
         ctx.machinery("only %d of %d (backing, pre-touch, starting sign) combinations were exercised" % (len(combos), len(BACKINGS) * len(TOUCHES) * 2))
     for (res, ncalls), rec in zip(results, recs + hist_recs + hold_recs):
         ctx.count(ncalls)
@@ -963,6 +987,10 @@ def run(ctx):
     ctx.note("headers", len(hdrs))
     ctx.assume("linear celestial WCS: RA---TAN / DEC--TAN with a non-singular CD (or PC+CDELT) matrix, no distortion terms; a singular matrix "
                "has no parity and is outside the property's quantifier")
+    ctx.assume("the WCS object carries the primary coordinate description: with a FITS alternate-axis key (WCS(header, key='A')) get_parity_sign / "
+               "flip_parity / ensure_negative_parity raise KeyError (to_header() emits suffixed keywords) before anything is written - a loud refusal, "
+               "no sentence of the property is observable on it")
+    ctx.assume("WCS.copy() shares the Wcsprm of the original, deepcopy() / sub() / .celestial do not (astropy; checked on every replayed history)")
     ctx.assume("astropy's projection (wcs_pix2world, p2s) is trusted; equal intermediate world coordinates imply equal sky positions")
     ctx.assume("matrix entries are integers times a pixel scale of 1e-2, 1e-3, 1e-5, 1e-7 or 1e-9 deg (rotations are the exact Pythagorean ones); "
                "sky positions compared to 1e-4 pixel (at most 1e-9 deg, at least 2e-12 deg = float noise of a coordinate near 360 deg)")
